@@ -103,6 +103,9 @@ func (d *DBFT[H]) checkPreCommit() {
 	} else {
 		if !d.Context.WatchOnly() {
 			d.Logger.Debug("can't send commit since self preCommit not yet sent")
+		} else {
+			// Watch-only node never sends anything, but it accepts blocks.
+			d.checkCommit()
 		}
 	}
 }
